@@ -8,6 +8,7 @@ EXTENDS RedisModel, Json
 
 CONSTANTS Keys,        \* e.g. {"k1","k2"}
           Vals,        \* values written by SET / MSET
+          OptKeys,     \* keys used together with SET options (subset of Keys)
           OptVals,     \* values used together with SET options / second MSET pair (subset of Vals)
           Deltas,      \* INCRBY / DECRBY arguments
           Shorts,      \* {} or {"@S1","@S2"}: expiries that need real sleeps (thorough tier)
@@ -58,7 +59,9 @@ Do(cmd) ==
 
 Misc   == \E c \in Pick(Commands) : Do(c)
 Get    == \E k \in Pick(Keys) : Do(<<"GET", k>>)
-Set    == \E k \in Pick(Keys), v \in Pick(OptVals), o \in Pick(SetOpts) : Do(<<"SET", k, v>> \o o)
+Set    == \E k \in Pick(OptKeys), v \in Pick(OptVals), o \in Pick(SetOpts) : Do(<<"SET", k, v>> \o o)
+\* short expiries and the sleeps that decide them get their own actions so that simulation meets them often
+SetShort == Shorts # {} /\ \E k \in Pick(Keys), v \in Pick(Vals), o \in Pick({"EX", "PX"}), t \in Pick(Shorts) : Do(<<"SET", k, v, o, t>>)
 SetP   == \E k \in Pick(Keys), v \in Pick(Vals) : Do(<<"SET", k, v>>)
 Del    == \E ks \in Pick(KeySeqs) : Do(<<"DEL">> \o ks)
 Exists == \E ks \in Pick(KeySeqs) : Do(<<"EXISTS">> \o ks)
@@ -75,7 +78,9 @@ Sleep  == /\ open /\ now < MaxNow /\ now' = now + 1 /\ st' = Purge(st, now + 1)
           /\ UNCHANGED open
 
 Init == st = EmptyStore /\ now = 1 /\ open = TRUE /\ last = [cmd |-> <<>>, r |-> <<>>] /\ hist = <<>>
-Next == Misc \/ Get \/ Set \/ SetP \/ Del \/ Exists \/ MGet \/ MSet \/ Incr \/ IncrBy \/ Quit \/ Sleep
+Sleep2 == Sleep
+Sleep3 == Sleep
+Next == Misc \/ Get \/ Set \/ SetP \/ SetShort \/ Del \/ Exists \/ MGet \/ MSet \/ Incr \/ IncrBy \/ Quit \/ Sleep \/ Sleep2 \/ Sleep3
 Spec == Init /\ [][Next]_vars
 
 view == <<st, now, open>>      \* `last` and `hist` are ghosts; facts about `last` are action properties
